@@ -147,6 +147,12 @@ def fault_cases(draw):
         case["row_pick"] = draw(st.integers(0, 11))
         case["cell_pick"] = draw(st.integers(0, 11))
         case["value"] = draw(st.sampled_from(sorted(REPEAT_VALUES)))
+        if draw(st.integers(0, 2)) == 0:
+            # the broken count sits in the padding of empty rows office suites append to a sheet: still a broken file
+            width = draw(st.integers(1, 3))
+            for _ in range(draw(st.integers(1, 2))):
+                sheets[case["sheet"]] = sheets[case["sheet"]] + [[""] * width]
+            case["row_pick"] = "last"
     elif fault == "missing-sheet":
         case["beyond"] = draw(st.sampled_from([1, 1, 2, 7, 120]))
     elif fault == "not-zip":
@@ -524,13 +530,14 @@ def check_fault_case(sub, case):
                     _expect_format_error(sub, case, fault, detail, _write(tmpdir, data), sheet, classes)
         elif fault in ("col-repeat", "row-repeat"):
             layout = _build(case)["layout"][case["sheet"]]
-            row = case["row_pick"] % len(layout)
+            row = len(layout) - 1 if case["row_pick"] == "last" else case["row_pick"] % len(layout)
             cell = case["cell_pick"] % len(layout[row]["cells"])
             spec = {"kind": fault, "sheet": case["sheet"], "row": row, "cell": cell, "value": case["value"]}
             data = _build(case, spec)["archive"]
             kind = "%s:%s" % (fault, REPEAT_VALUES[case["value"]])
             classes.add("fault:" + kind)
-            classes.add("fault-at:%s" % ("first" if row == 0 else "later") + "-row")
+            classes.add("fault-at:%s" % ("padding" if case["row_pick"] == "last" else "first" if row == 0 else "later")
+                        + "-row")
             instances += 1
             _expect_format_error(sub, case, kind, case["value"], _write(tmpdir, data), case["sheet"] + 1, classes)
         elif fault == "missing-sheet":
